@@ -5,7 +5,7 @@ import os
 from harness.common import err_code
 from harness import blocks, codec, common
 
-JUNKS = [(0, 255), (0, 0x81), (37, 11), (101, 7)]       # all-0xFF, all-0x81 (undecodable in cp1252), two mixed
+JUNKS = [(0, 255), (0, 0x81), (37, 11), (101, 7), (0, 0x3F)]       # all-0xFF, all-0x81 (undecodable in cp1252), two mixed, all-0x3F (any four of them are the float 0.747: junk that looks like plausible numbers)
 
 
 def runs_of(dc):
